@@ -736,11 +736,43 @@ class Body:
                 out.append((render(cond), frozenset(allowed), d, cond))
         return out
 
-    def must_pass_edges(self, site_bb, edges, start=0):
-        """True iff every path start -> site_bb uses at least one edge in `edges`."""
+    def must_pass_edges(self, site_bb, edges, start=0, correlate=None):
+        """True iff every path start -> site_bb uses at least one edge in `edges`.
+        correlate: regex; switches whose rendered condition matches it and is textually identical are assumed to
+        evaluate to the same outcome along one path (pure re-evaluation of the same test), pruning infeasible paths."""
         if site_bb == start:
             return False
-        return site_bb not in self.reachable([start], blocked_edges=edges)
+        if correlate is None:
+            return site_bb not in self.reachable([start], blocked_edges=edges)
+        rx = re.compile(correlate)
+        edges = set(edges)
+        seen = set()
+        stack = [(start, frozenset())]
+        while stack:
+            b, facts = stack.pop()
+            if (b, facts) in seen:
+                continue
+            seen.add((b, facts))
+            if b == site_bb:
+                return False
+            info = self.switch_info(b)
+            if info:
+                text = render(info[0])
+                if rx.search(text):
+                    known = dict(facts).get(text)
+                    for tgt, ls in info[1].items():
+                        if (b, tgt) in edges:
+                            continue
+                        key = "|".join(sorted(map(str, ls)))
+                        if known is not None and known != key:
+                            continue
+                        stack.append((tgt, facts | {(text, key)}))
+                    continue
+            for s2 in self.succ[b]:
+                if (b, s2) in edges:
+                    continue
+                stack.append((s2, facts))
+        return True
 
     def must_pass_nodes(self, from_bbs, to_bbs, nodes):
         """True iff every path from any of from_bbs to any of to_bbs passes a block in `nodes`."""
